@@ -221,6 +221,12 @@ def fam_c11(ctx):
             for ign in (0, 1):
                 for who in ("oldest", "youngest"):
                     S.append(ex([(["select.tick", k], [["hang", who, ign]])], timeout=to, nw=2, tail_s=to + 6))
+    # long timeouts: the lateness of the kill must not grow with the timeout (the master looks once a second)
+    # (the worker hangs after its first heartbeat: 2 ticks per second, the environment beats just in time)
+    for to in (8, 20, 30):
+        for k in (2 * to + 2, 2 * to + 5, 2 * to + 9, 2 * to + 14):
+            for ign in (0, 1):
+                S.append(ex([(["select.tick", k], [["hang", "oldest", ign]])], timeout=to, nw=2, tail_s=2 * to + 8))
     # hang right after fork, after assign, of a respawned worker
     for ign in (0, 1):
         S.append(ex([(["fork.post", 1], [["hang", "last", ign]])]))
